@@ -431,7 +431,7 @@ pub fn run(cfg: &Cfg) -> i32 {
     let mut out = Out::new("C14", cfg);
     let shard = cfg.shard as u64;
     out.extra.insert("shipped_sources".into(), json!(corpus.shipped.len()));
-    let n: usize = std::env::var("VH_NPROG").ok().and_then(|x| x.parse().ok()).unwrap_or(cfg.pick(500, 8000));
+    let n: usize = std::env::var("VH_NPROG").ok().and_then(|x| x.parse().ok()).unwrap_or(cfg.pick(500, 4000));
     for i in out.resume_from..n {
         out.checkpoint(i);
         let (input, kind) = input_at(cfg.seed, shard, i as u64, &corpus);
